@@ -185,6 +185,14 @@ func clientCheck(p ssh.VerifC37ClientParams) func(any) (string, string) {
 				return "forward for an unregistered address was not rejected", d
 			}
 		}
+		if p.DenyFirst {
+			if !r.FirstListenErr {
+				return "Listen reports success although the peer denied the request", d
+			}
+			if has(r.Confirmed, 950) || !has(r.Rejected, 950) {
+				return "forward for an address whose listen request was denied was not rejected", d
+			}
+		}
 		if p.LateForward {
 			if has(r.Confirmed, 900) {
 				return "forward delivered to a listener after its Close returned", d
@@ -255,6 +263,22 @@ func run(c *vf.Ctx) {
 						})
 					}
 				}
+			}
+		}
+	}
+	// a listen request that the peer denies, an open for that address (must be rejected), then
+	// the application asks again and is granted: the second listener must behave like a first one
+	for _, unix := range []bool{false, true} {
+		for F := 1; F <= 2; F++ {
+			for A := 0; A <= F; A++ {
+				p := ssh.VerifC37ClientParams{Unix: unix, Forwards: F, Strangers: 1, Accepts: A, CancelOK: true, LateForward: A == F, DenyFirst: true}
+				scs = append(scs, schedx.Scenario{
+					Name: fmt.Sprintf("client unix=%v first listen denied, retry F=%d A=%d", unix, F, A), Group: fmt.Sprintf("real Client unix=%v denied then granted", unix), Bound: 1,
+					Body:          func() any { return ssh.VerifC37Client(p) },
+					Check:         clientCheck(p),
+					Outcome:       clientOutcome,
+					DeadlockClass: deadlockClass,
+				})
 			}
 		}
 	}
